@@ -81,7 +81,17 @@ func (t *Timer) Stop() bool {
 		return false
 	}
 	Y(0)
-	return cancelTimer(t.key())
+	was := cancelTimer(t.key())
+	if t.ch != nil {
+		// Go 1.23 timers: a value that fired but was not received is discarded by
+		// Stop, which then reports the timer as stopped in time
+		select {
+		case <-t.ch:
+			was = true
+		default:
+		}
+	}
+	return was
 }
 
 // Reset re-arms the timer; it reports whether it was still pending. As with Go
@@ -98,6 +108,7 @@ func (t *Timer) Reset(d time.Duration) bool {
 	if t.ch != nil {
 		select {
 		case <-t.ch:
+			was = true
 		default:
 		}
 	}
